@@ -5,11 +5,11 @@ CONSTANTS
   K = 2
   DtNum = 1
   DtDen = 4
-  Spots = {1,2,4}
+  Spots = {1,4}
   Vars = {1,4}
   Spots2 = {1,3}
   Configs <- Combos2
-  EmitMod = 7
+  EmitMod = 1
   EmitRes = 0
 INVARIANT HedgeIsRef
 INVARIANT BranchesAgree
